@@ -305,8 +305,30 @@ fn arb_seg(first: bool) -> impl Strategy<Value = Seg> {
 }
 
 fn arb_segs() -> impl Strategy<Value = Vec<Seg>> {
-    (arb_seg(true), proptest::collection::vec(arb_seg(false), 0..6)).prop_map(|(a, mut v)| {
+    (arb_seg(true), proptest::collection::vec(arb_seg(false), 0..6), proptest::collection::vec((any::<u16>(), 0u8..3), 0..3)).prop_map(|(a, mut v, echoes)| {
         v.insert(0, a);
+        // repetition: a segment takes over the text (0), the style (1) or both (2) of its
+        // predecessor - neighbouring segments with the same text or the same look
+        for (frac, kind) in echoes {
+            if v.len() < 2 {
+                break;
+            }
+            let i = 1 + ((frac as usize * (v.len() - 1)) >> 16);
+            let prev = v[i - 1].clone();
+            if !v[i].styled {
+                continue;
+            }
+            match kind {
+                0 => v[i].text = prev.text,
+                1 if prev.styled => {
+                    v[i].fg = prev.fg;
+                    v[i].bg = prev.bg;
+                    v[i].effects = prev.effects;
+                }
+                2 if prev.styled => v[i] = prev,
+                _ => {}
+            }
+        }
         v
     })
 }
